@@ -17,7 +17,7 @@ RULE = ("certified oriented manifold polygon meshes drawn from the surface zoo (
         "in different orders, each starting with a different accessor; non-trivial = at least 8 faces and at least one interior vertex; "
         "distinct = distinct (vertex count, face list) hash")
 REQUIRED = {"conn": 5000, "order/batches": 500, "order_equal": 50}
-CASE_TIMEOUT = {"quick": 60.0, "thorough": 600.0}
+CASE_TIMEOUT = {"quick": 30.0, "thorough": 600.0}
 ASSUMPTIONS = ["inputs are oriented manifold polygon surfaces without unused vertices (certified by the reference analyser)",
                "ring answers are compared up to rotation/reflection (rotational order is what the property fixes)",
                "corner ids follow element order of the face list (C02)"]
